@@ -564,6 +564,27 @@ def run_delaunay(aa, v, case, mask, osr, n, subs, owner, base, menu, h, w, seed)
     ref_adj = rdel.adjacency_from_triangles(P, tris)
     check_neighbors(v, "delaunay:neighbors", mapper.neighbors, ref_adj)
 
+    # ---- the same geometry at a coordinate scale of 1e-3 (barycentric weights and the triangulation are scale invariant), and a
+    # mapper whose adaptive pixel signals are read BEFORE its mapping matrix (regularization schemes do that): same matrix
+    def mk(scale, adapt):
+        return aa.Mapper(
+            mapper_grids=aa.MapperGrids(mask=mask, source_plane_data_grid=aa.Grid2DIrregular(values=pts.copy() * scale),
+                                        source_plane_mesh_grid=aa.Mesh2DDelaunay(values=aa.Grid2DIrregular(values=verts.copy() * scale)),
+                                        adapt_data=adapt),
+            over_sampler=osr, regularization=None)
+
+    adapt = aa.Array2D(values=0.3 + 0.7 * ((np.arange(n) * 5) % 7), mask=mask)
+    okS, Ms = guarded(v, lambda: np.array(mk(1e-3, None).mapping_matrix, dtype=float))
+    if okS:
+        v.ok(Ms.shape == Mref.shape and dom.close(Ms, Mref, rtol=1e-7, atol=1e-9), "delaunay:weights:small-coordinate-scale",
+             lambda: "source plane and vertices scaled by 1e-3: mapping matrix differs from the scale-invariant reference by %s" % dom.maxdiff(Ms, Mref))
+    m3 = mk(1.0, adapt)
+    okG, sig = guarded(v, lambda: np.array(m3.pixel_signals_from(signal_scale=1.0), dtype=float))
+    okA, Ma = guarded(v, lambda: np.array(m3.mapping_matrix, dtype=float))
+    if okA and psw_ok:
+        v.ok(Ma.shape == Mref.shape and dom.close(Ma, Mref), "delaunay:mapping_matrix:after-pixel_signals_from",
+             lambda: "mapping matrix read after mapper.pixel_signals_from(): maxdiff to reference %s, row sums %s" % (dom.maxdiff(Ma, Mref), Ma.sum(axis=1).tolist()[:6]))
+
     n_in = int(np.sum(tri >= 0))
     split = int(np.max(np.sum(Mref > 0, axis=1)))
     v.nontrivial = split >= 2
